@@ -79,6 +79,33 @@ def check(ctx):
     from ._claims import check_claims
 
     check_claims(ctx)
+    # ---------------- a column selection is compared with None, never tested for truthiness (0 is a label)
+    n_sel = 0
+    lg = ctx.model.module("dask/dataframe/groupby.py")
+    from ..common import _truth_tests
+    for qn, f_ in lg.functions():
+        if not qn.startswith("_groupby_slice_"):
+            continue
+        n_sel += 1
+        bad = [unparse(nd)[:40] for nm, nd in _truth_tests(f_) if nm == "key"]
+        ctx.ob("TRUTH.column-label", f_, f"{qn}: the selection `key` is compared with None", not bad, "" if not bad else f"{bad}: the column label 0 (or '') is taken for 'no selection'")
+    gbm = ctx.model.module("dask/dataframe/dask_expr/_groupby.py")
+    bad = []
+    for qn, f_ in gbm.functions():
+        for node in ast.walk(f_):
+            tests = []
+            if isinstance(node, (ast.If, ast.IfExp, ast.While)):
+                tests.append(node.test)
+            if isinstance(node, ast.BoolOp):
+                tests.extend(node.values[:-1] if isinstance(node.op, ast.Or) else node.values)
+            if isinstance(node, ast.UnaryOp) and isinstance(node.op, ast.Not):
+                tests.append(node.operand)
+            for t_ in tests:
+                if unparse(t_) in ("self._slice", "_slice", "obj._slice"):
+                    bad.append(f"{qn}: {unparse(node)[:50]}")
+    ctx.count("selection_consumers", n_sel)
+    ctx.floor("selection_consumers", 3)
+    ctx.ob("TRUTH.column-label", "dask/dataframe/dask_expr/_groupby.py::<module>", "_slice (the selected column label(s)) is compared with None everywhere in _groupby.py", not bad, "" if not bad else f"{bad[:3]}: the column label 0 is taken for 'no selection'")
     from ._phases import option_used, min_count
 
     option_used(ctx, ["dask/dataframe/dask_expr/_groupby.py"], floor=5)
@@ -94,6 +121,7 @@ def check(ctx):
 
 
 VARIANTS = [
+    ("dask/dataframe/dask_expr/_groupby.py", "            if self._slice is not None:\n                non_group_columns = self._slice", "            if self._slice:\n                non_group_columns = self._slice", "TRUTH.column-label"),
     ("dask/dataframe/dask_expr/_groupby.py", "                result = result.iloc[:, order]", "                result = result.iloc[:, np.argsort(order)]", "TAB.relabel-order"),
     (GB, "class Count(SingleAggregation):\n    groupby_chunk = M.count\n    groupby_aggregate = M.sum", "class Count(SingleAggregation):\n    groupby_chunk = M.count\n    groupby_aggregate = M.count", "ALG.decomposition"),
     (GB, "class Size(SingleAggregation):\n    groupby_chunk = M.size\n    groupby_aggregate = M.sum", "class Size(SingleAggregation):\n    groupby_chunk = M.size", "ALG.decomposition"),
